@@ -137,7 +137,8 @@ type Sched struct {
 	MaxEvents int
 	Hash      uint64 // running hash of (task, site) releases and select outcomes
 
-	SpawnGroup int  // group given to tasks spawned from outside any task (set-up phase)
+	SpawnGroup int // group given to tasks spawned from outside any task (set-up phase)
+	freeOps    atomic.Int64
 	PreemptN   int  // 0: statement-level preemption off; n: park with probability 1/n
 	PoolEvict  bool // pool eviction fault enabled
 
@@ -267,6 +268,21 @@ func (s *Sched) signal() {
 	}
 }
 
+// freeTick counts the operations executed after the run is over (clean-up,
+// free-running). Letting everything end takes a few operations per task; a
+// goroutine that spins through instrumented points without ever blocking (a
+// polling loop that ignores the context) would keep the bubble from ever
+// becoming idle, so beyond a generous budget such goroutines are ended where
+// they stand. The verdict of the run is already recorded at that point.
+func (s *Sched) freeTick() {
+	if s == nil || !s.free.Load() {
+		return
+	}
+	if s.freeOps.Add(1) > 400000 {
+		runtime.Goexit()
+	}
+}
+
 // Wake is signalled whenever a task parks or exits.
 func (s *Sched) Wake() <-chan struct{} { return s.wake }
 
@@ -287,6 +303,7 @@ func (s *Sched) park(t *Task, site string) {
 func enter(site string) (*Sched, *Task) {
 	s := S
 	if s == nil || s.free.Load() {
+		s.freeTick()
 		return s, nil
 	}
 	if RawLib && !IsTask() {
@@ -338,6 +355,7 @@ func Yield(site string) { enter(site) }
 func Preempt(site string) {
 	s := S
 	if s == nil || s.PreemptN == 0 || s.free.Load() || s.cur == nil || RawLib {
+		s.freeTick()
 		return
 	}
 	if s.Choose(ChPreempt, s.PreemptN, site) == 1 {
@@ -502,6 +520,7 @@ func Close[T any](site string, c chan<- T) {
 func Sleep(site string, d time.Duration) {
 	s := S
 	if s == nil || s.free.Load() || s.cur == nil || (RawLib && !IsTask()) {
+		s.freeTick()
 		time.Sleep(d)
 		return
 	}
